@@ -44,6 +44,12 @@ def showResI (r : Res Int) : String :=
   | .ok v => s!"ok {v}"
   | .error f => Res.showFail f
 
+def showResU (r : Res (Int × Int)) : String :=
+  match r with
+  | .ok _ => "ok"
+  | .error .mathErr => "err 6062"
+  | .error f => Res.showFail f
+
 def riskOp (op : String) (a : List Int) : Option String :=
   match op, a with
   | "risk.pulse", now :: n :: rest =>
@@ -52,6 +58,14 @@ def riskOp (op : String) (a : List Int) : Option String :=
         (match pulse ps with
          | none => "abort"
          | some p => s!"ok {p.aInit} {p.lInit} {p.aMaint} {p.lMaint} {p.aEq} {p.lEq} {p.mrgnErr} {p.liqErr} {p.bkrErr} {p.internalErr} {p.errIndex} {p.flags}")
+      | _ => "bad-args")
+  | "risk.endliq", am :: lm :: ae :: le :: fee :: now :: n :: rest =>
+    some (match parsePositions now n.toNat rest with
+      | some (ps, []) => showResU (endLiquidation { aMaint := am, lMaint := lm, aEq := ae, lEq := le } ps fee)
+      | _ => "bad-args")
+  | "risk.enddelev", am :: lm :: ae :: le :: now :: n :: rest =>
+    some (match parsePositions now n.toNat rest with
+      | some (ps, []) => showResU (endDeleverage { aMaint := am, lMaint := lm, aEq := ae, lEq := le } ps)
       | _ => "bad-args")
   | "risk.price", now :: age :: t :: bias :: mc :: rest =>
     some (match parseFeed now age rest with
